@@ -199,9 +199,29 @@ def finding_matches(entry, prop, ob):
     if entry.get('construct') != ob.construct:
         return False
     st = entry.get('statement')
-    if st is not None and st != ob.statement:
+    if st is not None and st != ob.statement and _shape(st) != _shape(ob.statement):
         return False
     return True
+
+
+def _shape(text):
+    """the statement with its plain local names replaced by placeholders in order of first occurrence: a listed finding is the
+    same finding after a consistent renaming of locals (names in call position, attribute and keyword names are kept)"""
+    import ast as _ast
+    try:
+        tree = _ast.parse(text.strip())
+    except SyntaxError:
+        return text
+    funcs = {id(c.func) for c in _ast.walk(tree) if isinstance(c, _ast.Call)}
+    names = {}
+    for n in _ast.walk(tree):
+        pass
+    class R(_ast.NodeTransformer):
+        def visit_Name(self, n):
+            if id(n) in funcs or n.id == 'self':
+                return n
+            return _ast.copy_location(_ast.Name(id=names.setdefault(n.id, '_%d' % (len(names) + 1)), ctx=n.ctx), n)
+    return _ast.unparse(R().visit(tree))
 
 
 def replay_path(prop, ob):
